@@ -114,7 +114,7 @@ package fzf
 //@ modifies item.text.trimLength, item.text.trimLengthKnown
 //@ loop 1
 //@   invariant numChars == clen(&item.text) && 0 <= maxEnd && maxEnd <= numChars && 0 <= minBegin && 0 <= minEnd
-//@   invariant validOffsetFound ==> minBegin <= numChars && minEnd <= numChars && minBegin <= maxEnd
+//@   invariant validOffsetFound ==> minBegin <= numChars && minEnd <= numChars && minBegin < maxEnd -- only non-empty offsets count (a satisfied negated term contributes an empty one)
 //@ loop 2
 //@   writes item.text.trimLength, item.text.trimLengthKnown
 //@   invariant numChars == clen(&item.text) && result.item == item && trimMemoOK(&item.text) && validChars(&item.text)
